@@ -3286,7 +3286,10 @@ fn apply_relocation<
         value = thunked_value;
     };
 
-    rel_info.write_to_buffer(value, &mut out[offset_in_section..])?;
+    let out = out
+        .get_mut(offset_in_section..)
+        .context("Relocation outside of bounds of section")?;
+    rel_info.write_to_buffer(value, out)?;
 
     Ok(next_modifier)
 }
@@ -3485,7 +3488,10 @@ fn apply_debug_relocation<'data, A: Arch<Platform = Elf>, R: Relocation>(
         section_tombstone_value
     };
 
-    rel_info.write_to_buffer(value, &mut out[offset_in_section as usize..])?;
+    let out = out
+        .get_mut(offset_in_section as usize..)
+        .context("Relocation outside of bounds of section")?;
+    rel_info.write_to_buffer(value, out)?;
 
     Ok(())
 }
